@@ -143,11 +143,18 @@ def run(rep: common.Report, tier: str, seed: int, replay=None) -> int:
         frames, phys, failed, fields = {}, {}, {}, {}
         P_um = np.array([[0.7, -0.4, 0.8], [-1.5, 0.9, 1.5], [2.1, 0.2, -0.6], [0.0, 0.0, 2.0]])
         with tempfile.TemporaryDirectory(prefix="pyt_c08_") as td:
+            opts, kept = None, []
             for lu, fu, cu in systems:
                 dev = device_in(base, lu)
-                opts = runs.make_options(td, solve_time=0.25 if not screening else 0.06, dt_init=2e-3, dt_max=2e-2, save_every=10,
-                                         field_units=fu, current_units=cu, include_screening=screening, screening_tolerance=1e-3,
-                                         output_file=f"{td}/r_{lu}_{fu}_{cu}_{int(screening)}{int(ramp)}.h5")
+                if opts is None:
+                    opts = runs.make_options(td, solve_time=0.25 if not screening else 0.06, dt_init=2e-3, dt_max=2e-2, save_every=10,
+                                             field_units=fu, current_units=cu, include_screening=screening, screening_tolerance=1e-3,
+                                             output_file=f"{td}/r_{lu}_{fu}_{cu}_{int(screening)}{int(ramp)}.h5")
+                else:
+                    # history form: ONE options object, re-stated in the next unit system (the earlier solutions are kept and
+                    # queried again below: their physical outputs must not follow the caller's later changes)
+                    opts.field_units, opts.current_units = fu, cu
+                    opts.output_file = f"{td}/r_{lu}_{fu}_{cu}_{int(screening)}{int(ramp)}.h5"
                 try:
                     # ramp: a time-dependent uniform field (0.2 B -> B over 0.1 tau), stated in the run's own units
                     Afield = (runs.ramp_field_param(0.2 * B_T / FU[fu], B_T / FU[fu], 0.1, field_units=fu, length_units=lu)
@@ -169,6 +176,20 @@ def run(rep: common.Report, tier: str, seed: int, replay=None) -> int:
                 Ad = sol.vector_potential_at_position(Pphys, units="T * m", return_sum=False, with_units=False)
                 Af = sum(np.asarray(v) for k_, v in Ad.items() if k_ != "applied")
                 fields[key_] = (Bf, Af)
+                Atot = np.asarray(sol.vector_potential_at_position(Pphys, units="T * m", return_sum=True, with_units=False))
+                kept.append((key_, sol, Pphys, K, Bf, Atot))
+            for key_, sol_, Pp_, K_, Bf_, At_ in kept:
+                K2 = (sol_.supercurrent_density + sol_.normal_current_density).to("A / m").magnitude
+                B2 = np.asarray(sol_.field_at_position(Pp_, vector=True, units="tesla", with_units=False))
+                A2 = np.asarray(sol_.vector_potential_at_position(Pp_, units="T * m", return_sum=True, with_units=False))
+                changed = [nm for nm, x, y in (("current density", K_, K2), ("magnetic field", Bf_, B2), ("total vector potential", At_, A2))
+                           if not np.array_equal(x, y)]
+                if changed:
+                    rep.violation("the physical outputs of an earlier solution changed after the caller re-stated its options object in "
+                                  "another unit system for a later run: " + ", ".join(changed),
+                                  {"solution_units": key_, "screening": screening, "time_dependent_field": ramp,
+                                   "max_rel_change_A": float(np.max(np.abs(A2 - At_)) / (np.max(np.abs(At_)) + 1e-300))})
+                    break
             if failed and len(failed) < len(systems):
                 rep.violation("the same physical problem runs in one unit system and fails in another",
                               {"screening": screening, "failed": failed, "ran": sorted(frames), "B_tesla": B_T, "I_amp": I_A})
